@@ -150,6 +150,11 @@ def check(case):
         elif ftype == "down":
             for srv in env.servers:
                 srv.down = failure["what"]
+        elif ftype == "dialect":
+            # the server answers in a dialect of the protocol (another version, a proxy): whatever the client makes of it,
+            # with ignore_exc a read does not raise
+            for srv in env.servers:
+                srv.dialect = set(failure["what"])
         elif ftype == "fault":
             f = dict(failure["fault"], call=env.ncalls)
             net.plan([f])
@@ -180,7 +185,7 @@ def check(case):
             # and with the keys spread over several servers of which one fails, the other servers' items are still found
             partial = (ftype in ("fault", "faults") and kind.startswith(("hash", "aws")) and case.get("nservers", 1) > 1 and isinstance(got, dict)
                        and isinstance(hit, dict) and type(got) is type(hit) and all(k in hit and _equal_hit({k: v}, {k: hit[k]}) for k, v in got.items()))
-            if not (ftype in ("fault", "faults") and _equal_hit(got, hit)) and not partial:
+            if not (ftype in ("fault", "faults", "dialect") and _equal_hit(got, hit)) and not partial:
                 raise Violation(["shape", kind, call["op"]], "returned %s, a miss returns %s (hit would be %s): %s"
                                 % (_show(got, D, C), _show(miss, D, C), _show(hit, D, C), desc))
         # 2b. what a failed multi-key read returns belongs to the caller: filling it in (the cache-aside step) must not
@@ -203,6 +208,7 @@ def check(case):
         #     the servers all along), with no other traffic in between: repeating it is all an application does
         for srv in env.servers:
             srv.down = None
+            srv.dialect = set()
         if ftype != "serde":
             again = None
             for attempt in range(4):
@@ -218,6 +224,7 @@ def check(case):
         # 3b. still usable afterwards
         for srv in env.servers:
             srv.down = None
+            srv.dialect = set()
         ok = False
         last = None
         for attempt in range(4):
@@ -291,6 +298,8 @@ def sweep_cases(tier, seed):
                 yield dict(base, failure={"type": "down", "what": what})
             for how in ("raise", "badutf8"):
                 yield dict(base, failure={"type": "serde", "how": how})
+            for dia in (["unasked"], ["cas-always"], ["reverse"], ["dedupe"], ["repeat-first"], ["value-trailing-blank"], ["unasked", "reverse"], ["hangup-after-error"]):
+                yield dict(base, failure={"type": "dialect", "what": dia})
             if kind.startswith(("hash", "aws")):
                 yield dict(base, failure={"type": "retry-window"})
                 yield dict(base, cfg=dict(extra, retry_attempts=0), failure={"type": "all-dead"})
